@@ -103,3 +103,12 @@ Print Assumptions retain_run_keeps_newest.
 Example late_retention_sequence :
   retain_run [] 1 [RCk; RCk; RRt 1; RCk; RRt 2; RCk] = [2; 3; 4] /\ retain_valid [] 1 [RCk; RCk; RRt 1; RCk; RRt 2; RCk].
 Proof. vm_compute. repeat split; auto. Qed.
+
+(* whenever the job (re)starts: jobs.New either starts from the checkpoint of the highest id present in its storage
+   or refuses to start (any error of reading the chosen file) - it never starts empty while a checkpoint is listed *)
+Theorem job_starts_from_newest_or_refuses : forall ids fault,
+  Forall (fun i => i <= max64) ids ->
+  (ids = [] /\ job_start ids fault = Some None) \/
+  (ids <> [] /\ (job_start ids fault = None \/ job_start ids fault = Some (Some (list_max ids)))).
+Proof. exact job_start_newest_or_refuse. Qed.
+Print Assumptions job_starts_from_newest_or_refuses.
